@@ -232,6 +232,14 @@ func TestC02_Tampering(t *testing.T) {
 			c.Build = newDeactivate(c.Build.Alg, suffix, c.Build.SignKey, 0, 0)
 		}
 		c.From, c.Until = 0, 0
+		if rapid.IntRange(0, 3).Draw(t, "signedPayloadWithWhiteSpace") == 0 {
+			// the holder signed the signed data as a JSON text with insignificant white space in and around it: what is signed is
+			// those bytes, and the operation is as valid as the compact one
+			ws := func(l string) string { return rapid.SampledFrom([]string{"", "\n", " ", "\r\n", "\t "}).Draw(t, l) }
+			canon := refJCS(c.Build.Signed)
+			c.Build.signText([]byte(ws("wsBefore") + "{" + ws("wsInside") + canon[1:len(canon)-1] + "}" + ws("wsAfter")))
+			c.Build.assemble()
+		}
 		m := anchorMeta{Time: 6, Number: 1, Canonical: "c1"}
 		valid := c.Build.bytes()
 		c.Bytes = valid
